@@ -145,6 +145,26 @@ CHECKS["C11"] = dict(
     design="5 C11", technique="TLA+ specs (CalendarLead.tla, EnvFull.tla) model-checked with TLC; lead table and roll behaviours "
                               "replayed into the implementation", note=FULL_NOTE)
 
+CHECKS["C18"] = dict(
+    text="Tabular.tla transcribes TradingEnvXY's index logic (union re-index, start/end clamping, warm-up trimming, holiday "
+         "removal, dropping the first `window` dates) on sets of day numbers: TLC enumerates feature/price tables with missing "
+         "days, differing ranges (including ranges ending or starting on a real NYSE holiday), windows, strides and bounds and "
+         "checks StepsDef, NoStepBeforeWindow, ObsShape; every configuration is instantiated as DataFrames whose cells encode "
+         "(day, column), the real TradingEnvXY is run with none / z-score / power transformers, and every observation is compared "
+         "with the rows of the published table env.X selected by the model, every quote and rate with the given tables.",
+    design="5 C18", technique="TLA+ spec of the index logic model-checked with TLC; every configuration replayed into the real "
+                              "TradingEnvXY", note="Trusted base: TLC, harness, pandas_market_calendars for the holiday dates; the "
+                              "published table env.X is the oracle for values; daily tables with at most 1-2 missing days.")
+CHECKS["C02"] = dict(
+    text="2-safety by self-composition: NoLookahead.tla runs two instances of Env.tla in lock-step on streams that agree on all "
+         "events stamped <= cut (arbitrary extras, overriding quotes and insertion positions afterwards) and TLC checks PrefixEqual "
+         "and NextExecCut for all pairs, cuts, latencies and delays in bounds; every pair is then run through two real TradingEnv "
+         "instances and everything returned or recorded up to the cut (observations, rewards, done, trades, holdings, NLV, track "
+         "record, delivered notifications; the next execution when the streams agree up to cut + latency) is compared bit for "
+         "bit. Tabular half: TradingEnvXY on tables whose rows after t are altered with the transformer fitted up to <= t.",
+    design="5 C02", technique="TLA+ self-composition model-checked with TLC; TLC-generated stream pairs run through the real "
+                              "environment and compared bit for bit", note=ENV_NOTE)
+
 PENDING = "check not built yet in this round (the TLA+ model for it is planned in DESIGN.md section 5); listed here until its check is registered"
 
 
